@@ -1746,18 +1746,22 @@ class LookupList(BaseTable):
 
 class BaseGlyphRecordArray(BaseTable):
     def preWrite(self, font):
-        self.BaseGlyphRecord = sorted(
+        # sort a copy: compiling must not reorder the records of the object itself
+        table = self.__dict__.copy()
+        table["BaseGlyphRecord"] = sorted(
             self.BaseGlyphRecord, key=lambda rec: font.getGlyphID(rec.BaseGlyph)
         )
-        return self.__dict__.copy()
+        return table
 
 
 class BaseGlyphList(BaseTable):
     def preWrite(self, font):
-        self.BaseGlyphPaintRecord = sorted(
+        # sort a copy: compiling must not reorder the records of the object itself
+        table = self.__dict__.copy()
+        table["BaseGlyphPaintRecord"] = sorted(
             self.BaseGlyphPaintRecord, key=lambda rec: font.getGlyphID(rec.BaseGlyph)
         )
-        return self.__dict__.copy()
+        return table
 
 
 class ClipBoxFormat(IntEnum):
